@@ -11,13 +11,13 @@ def _dec(fr):
     return Decimal(fr.numerator) / Decimal(fr.denominator)
 
 
-def near_boundary(x, sig=10, margin=Decimal("0.01")):
+def near_boundary(x, sig=10, margin=Decimal("0.005")):
     """is the real number x (Fraction or Decimal) within `margin` rounding steps of a decimal
     rounding boundary k*10^-sig + 0.5*10^-sig ?   (property text: 5e-13 absolute at sig=10 = 0.005 step)"""
     d = _dec(x) if isinstance(x, Fr) else x
     y = abs(d) * (Decimal(10) ** sig)
     frac = y - int(y)
-    return abs(frac - Decimal("0.5")) < margin
+    return abs(frac - Decimal("0.5")) <= margin
 
 
 def unit_components(v):
@@ -35,8 +35,7 @@ def hashed_quantities(objs, pose):
 
     def pt(P):
         p = pose.pt(P)
-        qs.extend(p)
-        qs.extend([p[0] * p[1], p[0] * p[2], p[1] * p[2]])
+        qs.extend(p)          # (Point.__hash__ multiplies the already rounded coordinates: the products add no boundary)
         return p
 
     def plane(P, n):
